@@ -73,7 +73,7 @@ def select_units(db, repo, tier):
     units = []
     for e in db:
         rel = e['file'][len(repo) + 1:]
-        if rel.startswith('src/') or rel == 'cli/vata.cc':
+        if rel.startswith('src/') or rel in ('cli/vata.cc', 'unit_tests/ondriks_mtbdd_c_test.cc'):
             units.append(e['file'])
         elif tier == 'thorough':
             units.append(e['file'])
@@ -169,6 +169,10 @@ def analyse_paths(paths, rule_names):
         for recs, st in ex.map(analyse_unit, [(p, rule_names) for p in paths]):
             records.extend(recs)
             stats.append(st)
+    for rn in rule_names:
+        fin = getattr(rules.get(rn), 'finalize', None)
+        if fin:
+            records.extend(fin(records, None))
     return records, stats
 
 
